@@ -32,6 +32,19 @@ def _is_single_pass(prog, mod, v):
             r = prog.resolve_name(mod, f.id)
             if isinstance(r, FuncInfo) and any(isinstance(n, (ast.Yield, ast.YieldFrom)) for n in A.body_walk(r.node)):
                 return f"the generator function {f.id}()"
+        if isinstance(f, ast.Name):
+            # a nested generator function (also the enclosing one calling itself): looked up lexically
+            scope = getattr(v, "_parent", None)
+            while scope is not None:
+                if isinstance(scope, (ast.FunctionDef, ast.AsyncFunctionDef)):
+                    cand = [scope] if scope.name == f.id else []
+                    cand += [c for c in scope.body if isinstance(c, (ast.FunctionDef, ast.AsyncFunctionDef)) and c.name == f.id]
+                    for c in cand:
+                        if any(isinstance(n, (ast.Yield, ast.YieldFrom)) for n in A.body_walk(c)):
+                            return f"the nested generator function {f.id}()"
+                    if cand:
+                        break
+                scope = getattr(scope, "_parent", None)
     return None
 
 
